@@ -18,6 +18,7 @@ Verdict(r) ==
     [] r.kind = "route" -> Cl("C17_OmitUnset", r.unexpected = <<>>) \cup Cl("C17_Endpoint", WF!C17_Endpoint(r))
     [] r.kind = "timestamp" -> Cl("C17_Timestamp", WF!C17_Timestamp(r))
     [] r.kind = "status" -> Cl("C17_Status", WF!C17_Status(r))
+    [] r.kind = "payload_sum" -> Cl("C17_PayloadSum", WF!C17_PayloadSum(r))
     [] r.kind = "payload_decimal" -> Cl("C17_PayloadDecimal", r.coef = r.got_coef /\ r.exp = r.got_exp)
 Init == tid = 1
 Next == /\ tid <= Len(Traces)
